@@ -1,1 +1,484 @@
-//! placeholder
+//! Hand-derived truth tables for the reference evaluator (NULL logic, NOT IN / ANY / ALL with NULLs, outer
+//! joins, window frames) and smoke tests of printer + generator.
+use super::*;
+use Value::{Bool as B, Int as I, Null as N};
+
+fn t(name: &str, cols: &[(&str, Ty)], rows: Vec<Vec<Value>>) -> Table {
+    Table { name: name.into(), cols: cols.iter().map(|(n, ty)| ColDef { name: n.to_string(), ty: *ty }).collect(), rows }
+}
+
+fn sel(items: Vec<(Expr, &str)>, from: Option<TableRef>, where_: Option<Expr>) -> Select {
+    Select { distinct: false, items: items.into_iter().map(|(e, a)| SelectItem { expr: e, alias: a.into() }).collect(), from, where_, group_by: GroupBy::None, having: None, qualify: None }
+}
+
+fn tab(name: &str, alias: &str) -> TableRef {
+    TableRef::Table { name: name.into(), alias: alias.into() }
+}
+
+fn rows_of(q: &Query, db: &Db) -> Vec<Vec<Value>> {
+    let mut r = eval(q, db).unwrap().rows;
+    r.sort_by(|a, b| canon_row_cmp(a, b));
+    r
+}
+
+fn s(x: &str) -> Value {
+    Value::Str(x.into())
+}
+
+fn const_query(e: Expr) -> Query {
+    Query::simple(sel(vec![(e, "k0")], None, None))
+}
+
+fn eval_const(e: Expr) -> Value {
+    eval(&const_query(e), &Db::default()).unwrap().rows[0][0].clone()
+}
+
+fn lit3(v: Option<bool>) -> Expr {
+    match v {
+        None => Expr::Null(Ty::Bool),
+        Some(b) => Expr::bool(b),
+    }
+}
+
+fn val3(v: Option<bool>) -> Value {
+    match v {
+        None => N,
+        Some(b) => B(b),
+    }
+}
+
+#[test]
+fn three_valued_connectives() {
+    let vals = [Some(true), Some(false), None];
+    // truth tables written out by hand (Kleene logic)
+    let and_tt = [[Some(true), Some(false), None], [Some(false), Some(false), Some(false)], [None, Some(false), None]];
+    let or_tt = [[Some(true), Some(true), Some(true)], [Some(true), Some(false), None], [Some(true), None, None]];
+    let not_tt = [Some(false), Some(true), None];
+    for (i, a) in vals.iter().enumerate() {
+        assert_eq!(eval_const(Expr::Not(Box::new(lit3(*a)))), val3(not_tt[i]));
+        for (j, b) in vals.iter().enumerate() {
+            assert_eq!(eval_const(Expr::bin(BinOp::And, lit3(*a), lit3(*b))), val3(and_tt[i][j]), "{a:?} AND {b:?}");
+            assert_eq!(eval_const(Expr::bin(BinOp::Or, lit3(*a), lit3(*b))), val3(or_tt[i][j]), "{a:?} OR {b:?}");
+        }
+    }
+}
+
+#[test]
+fn null_comparisons_and_tests() {
+    let n = || Expr::Null(Ty::Int);
+    assert_eq!(eval_const(Expr::eq(n(), Expr::int(1))), N);
+    assert_eq!(eval_const(Expr::eq(n(), n())), N);
+    assert_eq!(eval_const(Expr::bin(BinOp::Ne, Expr::int(1), n())), N);
+    assert_eq!(eval_const(Expr::IsDistinctFrom { l: Box::new(n()), r: Box::new(n()), negated: false }), B(false));
+    assert_eq!(eval_const(Expr::IsDistinctFrom { l: Box::new(n()), r: Box::new(Expr::int(1)), negated: false }), B(true));
+    assert_eq!(eval_const(Expr::IsDistinctFrom { l: Box::new(Expr::int(1)), r: Box::new(Expr::int(1)), negated: true }), B(true));
+    assert_eq!(eval_const(Expr::IsNull { e: Box::new(n()), negated: false }), B(true));
+    assert_eq!(eval_const(Expr::IsNull { e: Box::new(Expr::int(0)), negated: true }), B(true));
+    // IS [NOT] TRUE/FALSE/UNKNOWN never return NULL
+    let nb = || Expr::Null(Ty::Bool);
+    assert_eq!(eval_const(Expr::BoolTest { e: Box::new(nb()), test: BoolTest::IsTrue }), B(false));
+    assert_eq!(eval_const(Expr::BoolTest { e: Box::new(nb()), test: BoolTest::IsNotTrue }), B(true));
+    assert_eq!(eval_const(Expr::BoolTest { e: Box::new(nb()), test: BoolTest::IsNotFalse }), B(true));
+    assert_eq!(eval_const(Expr::BoolTest { e: Box::new(nb()), test: BoolTest::IsUnknown }), B(true));
+    assert_eq!(eval_const(Expr::BoolTest { e: Box::new(Expr::bool(false)), test: BoolTest::IsNotUnknown }), B(true));
+    // BETWEEN: 3 BETWEEN NULL AND 2 is false, 1 BETWEEN NULL AND 2 is NULL
+    assert_eq!(eval_const(Expr::Between { e: Box::new(Expr::int(3)), lo: Box::new(n()), hi: Box::new(Expr::int(2)), negated: false }), B(false));
+    assert_eq!(eval_const(Expr::Between { e: Box::new(Expr::int(1)), lo: Box::new(n()), hi: Box::new(Expr::int(2)), negated: false }), N);
+    assert_eq!(eval_const(Expr::Between { e: Box::new(Expr::int(3)), lo: Box::new(n()), hi: Box::new(Expr::int(2)), negated: true }), B(true));
+    // IN list
+    assert_eq!(eval_const(Expr::InList { e: Box::new(Expr::int(1)), list: vec![Expr::int(2), n()], negated: false }), N);
+    assert_eq!(eval_const(Expr::InList { e: Box::new(Expr::int(1)), list: vec![Expr::int(1), n()], negated: false }), B(true));
+    assert_eq!(eval_const(Expr::InList { e: Box::new(Expr::int(1)), list: vec![Expr::int(2), n()], negated: true }), N);
+    assert_eq!(eval_const(Expr::InList { e: Box::new(Expr::int(1)), list: vec![Expr::int(2), Expr::int(3)], negated: true }), B(true));
+    assert_eq!(eval_const(Expr::InList { e: Box::new(n()), list: vec![Expr::int(2)], negated: false }), N);
+    // CASE NULL WHEN NULL falls to ELSE; NULLIF; COALESCE
+    assert_eq!(eval_const(Expr::Case { operand: Some(Box::new(n())), whens: vec![(n(), Expr::int(1))], else_: Some(Box::new(Expr::int(2))) }), I(2));
+    assert_eq!(eval_const(Expr::Case { operand: None, whens: vec![(nb(), Expr::int(1))], else_: None }), N);
+    assert_eq!(eval_const(Expr::NullIf(Box::new(Expr::int(1)), Box::new(Expr::int(1)))), N);
+    assert_eq!(eval_const(Expr::NullIf(Box::new(Expr::int(1)), Box::new(n()))), I(1));
+    assert_eq!(eval_const(Expr::Coalesce(vec![n(), Expr::int(4), Expr::int(5)])), I(4));
+    // || propagates NULL, concat skips it
+    assert_eq!(eval_const(Expr::bin(BinOp::Concat, Expr::str("a"), Expr::Null(Ty::Str))), N);
+    assert_eq!(eval_const(Expr::Func(Func::ConcatFn, vec![Expr::str("a"), Expr::Null(Ty::Str), Expr::str("b")])), s("ab"));
+}
+
+#[test]
+fn integer_arithmetic() {
+    assert_eq!(eval_const(Expr::bin(BinOp::Div, Expr::int(-7), Expr::int(2))), I(-3));
+    assert_eq!(eval_const(Expr::bin(BinOp::Mod, Expr::int(-7), Expr::int(3))), I(-1));
+    assert_eq!(eval_const(Expr::bin(BinOp::Mod, Expr::int(7), Expr::int(-3))), I(1));
+    assert_eq!(eval(&const_query(Expr::bin(BinOp::Div, Expr::int(1), Expr::int(0))), &Db::default()).unwrap_err(), RefError::DivZero);
+    assert_eq!(eval(&const_query(Expr::bin(BinOp::Add, Expr::int(i64::MAX), Expr::int(1))), &Db::default()).unwrap_err(), RefError::Overflow);
+    assert_eq!(eval(&const_query(Expr::bin(BinOp::Mul, Expr::int(4294967297), Expr::int(4294967297))), &Db::default()).unwrap_err(), RefError::Overflow);
+    assert_eq!(eval_const(Expr::bin(BinOp::Div, Expr::int(1), Expr::Null(Ty::Int))), N);
+    assert_eq!(eval_const(Expr::Cast(Box::new(Expr::float(1.9)), Ty::Int)), I(1));
+    assert_eq!(eval_const(Expr::Cast(Box::new(Expr::float(-1.5)), Ty::Int)), I(-1));
+}
+
+#[test]
+fn like_matcher() {
+    use super::expr::like_match;
+    assert!(like_match("abc", "a%", false));
+    assert!(like_match("abc", "a_c", false));
+    assert!(!like_match("abc", "a_", false));
+    assert!(like_match("", "%", false));
+    assert!(!like_match("", "_", false));
+    assert!(like_match("a%", "a\\%", false));
+    assert!(!like_match("ab", "a\\%", false));
+    assert!(like_match("ABC", "a%", true));
+    assert!(!like_match("ABC", "a%", false));
+    assert!(like_match("xéy", "_é_", false));
+    assert!(like_match("aXbXc", "%X%X%", false));
+}
+
+/// t(x): 1, 2, NULL   u(y): 2, NULL   e(y): (empty)
+fn subq_db() -> Db {
+    Db {
+        tables: vec![
+            t("t", &[("x", Ty::Int)], vec![vec![I(1)], vec![I(2)], vec![N]]),
+            t("u", &[("y", Ty::Int)], vec![vec![I(2)], vec![N]]),
+            t("e", &[("y", Ty::Int)], vec![]),
+            t("w", &[("y", Ty::Int)], vec![vec![I(2)], vec![I(3)]]),
+        ],
+    }
+}
+
+fn sub(table: &str) -> Box<Query> {
+    Box::new(Query::simple(sel(vec![(Expr::col("s", "y"), "k9")], Some(tab(table, "s")), None)))
+}
+
+/// SELECT x, <pred> FROM t
+fn pred_rows(pred: Expr) -> Vec<(Value, Value)> {
+    let q = Query::simple(sel(vec![(Expr::col("r", "x"), "k0"), (pred, "k1")], Some(tab("t", "r")), None));
+    rows_of(&q, &subq_db()).into_iter().map(|r| (r[0].clone(), r[1].clone())).collect()
+}
+
+#[test]
+fn in_and_not_in_with_nulls() {
+    let x = || Box::new(Expr::col("r", "x"));
+    // x IN (2, NULL): 1 → NULL, 2 → TRUE, NULL → NULL   (rows sorted: NULL, 1, 2)
+    assert_eq!(pred_rows(Expr::InSubquery { e: x(), q: sub("u"), negated: false }), vec![(N, N), (I(1), N), (I(2), B(true))]);
+    // x NOT IN (2, NULL): 1 → NULL, 2 → FALSE, NULL → NULL
+    assert_eq!(pred_rows(Expr::InSubquery { e: x(), q: sub("u"), negated: true }), vec![(N, N), (I(1), N), (I(2), B(false))]);
+    // empty subquery: IN → FALSE, NOT IN → TRUE, even for NULL x
+    assert_eq!(pred_rows(Expr::InSubquery { e: x(), q: sub("e"), negated: false }), vec![(N, B(false)), (I(1), B(false)), (I(2), B(false))]);
+    assert_eq!(pred_rows(Expr::InSubquery { e: x(), q: sub("e"), negated: true }), vec![(N, B(true)), (I(1), B(true)), (I(2), B(true))]);
+    // x NOT IN (2, 3): 1 → TRUE, 2 → FALSE, NULL → NULL
+    assert_eq!(pred_rows(Expr::InSubquery { e: x(), q: sub("w"), negated: true }), vec![(N, N), (I(1), B(true)), (I(2), B(false))]);
+    // as a filter: SELECT x FROM t WHERE x NOT IN (SELECT y FROM u) → no rows
+    let q = Query::simple(sel(vec![(Expr::col("r", "x"), "k0")], Some(tab("t", "r")), Some(Expr::InSubquery { e: x(), q: sub("u"), negated: true })));
+    assert!(rows_of(&q, &subq_db()).is_empty());
+}
+
+#[test]
+fn any_all_with_nulls() {
+    let x = || Box::new(Expr::col("r", "x"));
+    let quant = |op, all, tb: &str| Expr::Quantified { e: x(), op, all, q: sub(tb) };
+    // x = ANY (2, NULL): like IN
+    assert_eq!(pred_rows(quant(BinOp::Eq, false, "u")), vec![(N, N), (I(1), N), (I(2), B(true))]);
+    // x <> ALL (2, NULL): like NOT IN
+    assert_eq!(pred_rows(quant(BinOp::Ne, true, "u")), vec![(N, N), (I(1), N), (I(2), B(false))]);
+    // x > ALL (2, NULL): 1 → FALSE (1 > 2 is false), 2 → FALSE, NULL → NULL
+    assert_eq!(pred_rows(quant(BinOp::Gt, true, "u")), vec![(N, N), (I(1), B(false)), (I(2), B(false))]);
+    // x < ALL (2, NULL): 1 → NULL (true AND null), 2 → FALSE
+    assert_eq!(pred_rows(quant(BinOp::Lt, true, "u")), vec![(N, N), (I(1), N), (I(2), B(false))]);
+    // x >= ANY (2, NULL): 1 → NULL (false OR null), 2 → TRUE
+    assert_eq!(pred_rows(quant(BinOp::Ge, false, "u")), vec![(N, N), (I(1), N), (I(2), B(true))]);
+    // empty: ALL → TRUE, ANY → FALSE, also for NULL x
+    assert_eq!(pred_rows(quant(BinOp::Gt, true, "e")), vec![(N, B(true)), (I(1), B(true)), (I(2), B(true))]);
+    assert_eq!(pred_rows(quant(BinOp::Gt, false, "e")), vec![(N, B(false)), (I(1), B(false)), (I(2), B(false))]);
+    // x < ALL (2, 3): 1 → TRUE, 2 → FALSE, NULL → NULL
+    assert_eq!(pred_rows(quant(BinOp::Lt, true, "w")), vec![(N, N), (I(1), B(true)), (I(2), B(false))]);
+}
+
+#[test]
+fn exists_and_scalar_subqueries() {
+    // correlated: SELECT x, EXISTS (SELECT y FROM u s WHERE s.y = r.x), (SELECT count(*) FROM u s WHERE s.y = r.x) FROM t r
+    let corr = |items: Vec<(Expr, &str)>| Box::new(Query::simple(sel(items, Some(tab("u", "s")), Some(Expr::eq(Expr::col("s", "y"), Expr::col("r", "x"))))));
+    let count = Expr::Agg(Box::new(AggCall { f: AggFunc::Count, distinct: false, arg: None, filter: None }));
+    let maxy = Expr::Agg(Box::new(AggCall { f: AggFunc::Max, distinct: false, arg: Some(Expr::col("s", "y")), filter: None }));
+    let q = Query::simple(sel(
+        vec![
+            (Expr::col("r", "x"), "k0"),
+            (Expr::Exists { q: corr(vec![(Expr::col("s", "y"), "k5")]), negated: false }, "k1"),
+            (Expr::Scalar(corr(vec![(count, "k6")])), "k2"),
+            (Expr::Scalar(corr(vec![(maxy, "k7")])), "k3"),
+        ],
+        Some(tab("t", "r")),
+        None,
+    ));
+    assert_eq!(rows_of(&q, &subq_db()), vec![vec![N, B(false), I(0), N], vec![I(1), B(false), I(0), N], vec![I(2), B(true), I(1), I(2)]]);
+    // scalar subquery with more than one row is an error
+    let q = Query::simple(sel(vec![(Expr::Scalar(sub("u")), "k0")], None, None));
+    assert_eq!(eval(&q, &subq_db()).unwrap_err(), RefError::ScalarCardinality);
+}
+
+/// l(id, k): (1, 1), (2, 2), (3, NULL)     r(id, k): (10, 1), (11, 1), (12, 3), (13, NULL)
+fn join_db() -> Db {
+    Db {
+        tables: vec![
+            t("l", &[("id", Ty::Int), ("k", Ty::Int)], vec![vec![I(1), I(1)], vec![I(2), I(2)], vec![I(3), N]]),
+            t("r", &[("id", Ty::Int), ("k", Ty::Int)], vec![vec![I(10), I(1)], vec![I(11), I(1)], vec![I(12), I(3)], vec![I(13), N]]),
+        ],
+    }
+}
+
+fn join_rows(kind: JoinKind, cols: &[(&str, &str)]) -> Vec<Vec<Value>> {
+    let from = TableRef::Join { kind, left: Box::new(tab("l", "a")), right: Box::new(tab("r", "b")), on: Some(Expr::eq(Expr::col("a", "k"), Expr::col("b", "k"))) };
+    let items = cols.iter().enumerate().map(|(i, (r, c))| (Expr::col(r, c), ["k0", "k1", "k2", "k3"][i])).collect();
+    rows_of(&Query::simple(sel(items, Some(from), None)), &join_db())
+}
+
+#[test]
+fn joins_of_all_kinds() {
+    let both = [("a", "id"), ("b", "id")];
+    assert_eq!(join_rows(JoinKind::Inner, &both), vec![vec![I(1), I(10)], vec![I(1), I(11)]]);
+    assert_eq!(join_rows(JoinKind::Left, &both), vec![vec![I(1), I(10)], vec![I(1), I(11)], vec![I(2), N], vec![I(3), N]]);
+    assert_eq!(join_rows(JoinKind::Right, &both), vec![vec![N, I(12)], vec![N, I(13)], vec![I(1), I(10)], vec![I(1), I(11)]]);
+    assert_eq!(join_rows(JoinKind::Full, &both), vec![vec![N, I(12)], vec![N, I(13)], vec![I(1), I(10)], vec![I(1), I(11)], vec![I(2), N], vec![I(3), N]]);
+    assert_eq!(join_rows(JoinKind::LeftSemi, &[("a", "id")]), vec![vec![I(1)]]);
+    assert_eq!(join_rows(JoinKind::LeftAnti, &[("a", "id")]), vec![vec![I(2)], vec![I(3)]]);
+    assert_eq!(join_rows(JoinKind::RightSemi, &[("b", "id")]), vec![vec![I(10)], vec![I(11)]]);
+    assert_eq!(join_rows(JoinKind::RightAnti, &[("b", "id")]), vec![vec![I(12)], vec![I(13)]]);
+    let from = TableRef::Join { kind: JoinKind::Cross, left: Box::new(tab("l", "a")), right: Box::new(tab("r", "b")), on: None };
+    assert_eq!(rows_of(&Query::simple(sel(vec![(Expr::col("a", "id"), "k0")], Some(from), None)), &join_db()).len(), 12);
+}
+
+#[test]
+fn grouping_and_aggregates() {
+    // g(k, v): (1, 10), (1, NULL), (2, 5), (NULL, 7), (NULL, 7)
+    let db = Db { tables: vec![t("g", &[("k", Ty::Int), ("v", Ty::Int)], vec![vec![I(1), I(10)], vec![I(1), N], vec![I(2), I(5)], vec![N, I(7)], vec![N, I(7)]])] };
+    let agg = |f, distinct, arg: Option<Expr>| Expr::Agg(Box::new(AggCall { f, distinct, arg, filter: None }));
+    let v = || Expr::col("r", "v");
+    let mut s1 = sel(
+        vec![
+            (Expr::col("r", "k"), "k0"),
+            (agg(AggFunc::Count, false, None), "k1"),
+            (agg(AggFunc::Count, false, Some(v())), "k2"),
+            (agg(AggFunc::Sum, false, Some(v())), "k3"),
+            (agg(AggFunc::Count, true, Some(v())), "k4"),
+            (agg(AggFunc::Avg, false, Some(v())), "k5"),
+        ],
+        Some(tab("g", "r")),
+        None,
+    );
+    s1.group_by = GroupBy::Plain(vec![Expr::col("r", "k")]);
+    assert_eq!(
+        rows_of(&Query::simple(s1.clone()), &db),
+        vec![vec![N, I(2), I(2), I(14), I(1), Value::Float(7.0)], vec![I(1), I(2), I(1), I(10), I(1), Value::Float(10.0)], vec![I(2), I(1), I(1), I(5), I(1), Value::Float(5.0)]]
+    );
+    // global aggregate over an empty input: count 0, sum NULL — one row
+    let mut s2 = sel(vec![(agg(AggFunc::Count, false, None), "k1"), (agg(AggFunc::Sum, false, Some(v())), "k3")], Some(tab("g", "r")), Some(Expr::bool(false)));
+    assert_eq!(rows_of(&Query::simple(s2.clone()), &db), vec![vec![I(0), N]]);
+    // grouped aggregate over an empty input: no row
+    s2.group_by = GroupBy::Plain(vec![Expr::col("r", "k")]);
+    assert!(rows_of(&Query::simple(s2.clone()), &db).is_empty());
+    // ROLLUP(k): groups + grand total; grouping(k) marks the total
+    let mut s3 = sel(vec![(Expr::col("r", "k"), "k0"), (Expr::Grouping(Box::new(Expr::col("r", "k"))), "k1"), (agg(AggFunc::Count, false, None), "k2")], Some(tab("g", "r")), None);
+    s3.group_by = GroupBy::Rollup(vec![Expr::col("r", "k")]);
+    assert_eq!(rows_of(&Query::simple(s3.clone()), &db), vec![vec![N, I(0), I(2)], vec![N, I(1), I(5)], vec![I(1), I(0), I(2)], vec![I(2), I(0), I(1)]]);
+    // HAVING + FILTER
+    let mut s4 = sel(vec![(Expr::col("r", "k"), "k0"), (Expr::Agg(Box::new(AggCall { f: AggFunc::Count, distinct: false, arg: None, filter: Some(Expr::bin(BinOp::Gt, v(), Expr::int(6))) })), "k1")], Some(tab("g", "r")), None);
+    s4.group_by = GroupBy::Plain(vec![Expr::col("r", "k")]);
+    s4.having = Some(Expr::bin(BinOp::Ge, agg(AggFunc::Count, false, None), Expr::int(2)));
+    assert_eq!(rows_of(&Query::simple(s4), &db), vec![vec![N, I(2)], vec![I(1), I(1)]]);
+}
+
+#[test]
+fn set_operations_bag_semantics() {
+    // a: 1,1,2,NULL,NULL   b: 1,NULL,3
+    let db = Db { tables: vec![t("a", &[("x", Ty::Int)], vec![vec![I(1)], vec![I(1)], vec![I(2)], vec![N], vec![N]]), t("b", &[("x", Ty::Int)], vec![vec![I(1)], vec![N], vec![I(3)]])] };
+    let side = |tb: &str, al: &str, k: &str| Box::new(SetExpr::Select(Box::new(sel(vec![(Expr::col(al, "x"), k)], Some(tab(tb, al)), None))));
+    let run = |op, all| {
+        let q = Query { with: vec![], body: SetExpr::SetOp { op, all, left: side("a", "l", "k0"), right: side("b", "r", "k1") }, order_by: vec![], limit: None, offset: None };
+        rows_of(&q, &db).into_iter().map(|r| r[0].clone()).collect::<Vec<_>>()
+    };
+    assert_eq!(run(SetOp::Union, true), vec![N, N, N, I(1), I(1), I(1), I(2), I(3)]);
+    assert_eq!(run(SetOp::Union, false), vec![N, I(1), I(2), I(3)]);
+    assert_eq!(run(SetOp::Intersect, false), vec![N, I(1)]);
+    assert_eq!(run(SetOp::Intersect, true), vec![N, I(1)]);
+    assert_eq!(run(SetOp::Except, false), vec![I(2)]);
+    assert_eq!(run(SetOp::Except, true), vec![N, I(1), I(2)]);
+}
+
+#[test]
+fn order_limit_and_nondeterminism() {
+    let db = Db { tables: vec![t("a", &[("x", Ty::Int), ("y", Ty::Int)], vec![vec![I(2), I(0)], vec![N, I(1)], vec![I(1), I(2)], vec![I(2), I(3)]])] };
+    let body = SetExpr::Select(Box::new(sel(vec![(Expr::col("r", "x"), "k0"), (Expr::col("r", "y"), "k1")], Some(tab("a", "r")), None)));
+    let ob = |desc, nf| vec![OrderItem { expr: Expr::out("k0"), desc, nulls_first: nf }, OrderItem { expr: Expr::out("k1"), desc: false, nulls_first: None }];
+    let q = Query { with: vec![], body: body.clone(), order_by: ob(false, None), limit: Some(2), offset: Some(1) };
+    // ASC = NULLS LAST: (1,2) (2,0) (2,3) (NULL,1); OFFSET 1 LIMIT 2
+    assert_eq!(eval(&q, &db).unwrap().rows, vec![vec![I(2), I(0)], vec![I(2), I(3)]]);
+    // DESC = NULLS FIRST
+    let q = Query { with: vec![], body: body.clone(), order_by: ob(true, None), limit: Some(2), offset: None };
+    assert_eq!(eval(&q, &db).unwrap().rows, vec![vec![N, I(1)], vec![I(2), I(0)]]);
+    let q = Query { with: vec![], body: body.clone(), order_by: ob(true, Some(false)), limit: Some(1), offset: None };
+    assert_eq!(eval(&q, &db).unwrap().rows, vec![vec![I(2), I(0)]]);
+    // ORDER BY x LIMIT 2 cuts through the tie (2,0)/(2,3): top-level → tie-aware spec
+    let q = Query { with: vec![], body: body.clone(), order_by: vec![OrderItem { expr: Expr::out("k0"), desc: false, nulls_first: None }], limit: Some(2), offset: None };
+    let r = eval(&q, &db).unwrap();
+    assert!(r.topk.is_some());
+    assert!(check_result(&r, &[vec![I(1), I(2)], vec![I(2), I(3)]]).is_ok());
+    assert!(check_result(&r, &[vec![I(1), I(2)], vec![I(2), I(0)]]).is_ok());
+    assert!(check_result(&r, &[vec![I(2), I(0)], vec![I(2), I(3)]]).is_err());
+    assert!(check_result(&r, &[vec![I(2), I(0)], vec![I(1), I(2)]]).is_err()); // unsorted
+    assert!(!deterministic_on(&q, &db));
+    // nested: the same cut inside a derived table is a Nondeterministic error
+    let outer = Query::simple(sel(vec![(Expr::col("d", "k0"), "k5")], Some(TableRef::Derived { q: Box::new(q), alias: "d".into() }), None));
+    assert!(matches!(eval(&outer, &db), Err(RefError::Nondeterministic(_))));
+    // LIMIT without ORDER BY over distinct rows is nondeterministic, LIMIT 0 is fine
+    let q = Query { with: vec![], body: body.clone(), order_by: vec![], limit: Some(1), offset: None };
+    assert!(matches!(eval(&q, &db), Err(RefError::Nondeterministic(_))));
+    let q = Query { with: vec![], body, order_by: vec![], limit: Some(0), offset: None };
+    assert!(eval(&q, &db).unwrap().rows.is_empty());
+}
+
+fn win(f: WinFunc, args: Vec<Expr>, part: Vec<Expr>, order: Vec<OrderItem>, frame: Option<Frame>) -> Expr {
+    Expr::Win(Box::new(WinCall { f, args, partition_by: part, order_by: order, frame }))
+}
+
+fn asc(e: Expr) -> OrderItem {
+    OrderItem { expr: e, desc: false, nulls_first: None }
+}
+
+#[test]
+fn window_functions_and_frames() {
+    // w(id, g, v): (1,a,10) (2,a,20) (3,a,20) (4,a,NULL) (5,b,5)
+    let db = Db {
+        tables: vec![t(
+            "w",
+            &[("id", Ty::Int), ("g", Ty::Str), ("v", Ty::Int)],
+            vec![vec![I(1), s("a"), I(10)], vec![I(2), s("a"), I(20)], vec![I(3), s("a"), I(20)], vec![I(4), s("a"), N], vec![I(5), s("b"), I(5)]],
+        )],
+    };
+    let id = || Expr::col("r", "id");
+    let v = || Expr::col("r", "v");
+    let g = || Expr::col("r", "g");
+    let run = |w: Expr| -> Vec<Value> {
+        let q = Query::simple(sel(vec![(id(), "k0"), (w, "k1")], Some(tab("w", "r")), None));
+        rows_of(&q, &db).into_iter().map(|r| r[1].clone()).collect()
+    };
+    let fr = |units, start, end| Some(Frame { units, start, end });
+    use FrameBound::*;
+    assert_eq!(run(win(WinFunc::RowNumber, vec![], vec![g()], vec![asc(id())], None)), vec![I(1), I(2), I(3), I(4), I(1)]);
+    // rank / dense_rank by v (NULLS LAST): 10→1, 20→2, 20→2, NULL→4 / 3
+    assert_eq!(run(win(WinFunc::Rank, vec![], vec![g()], vec![asc(v())], None)), vec![I(1), I(2), I(2), I(4), I(1)]);
+    assert_eq!(run(win(WinFunc::DenseRank, vec![], vec![g()], vec![asc(v())], None)), vec![I(1), I(2), I(2), I(3), I(1)]);
+    // default frame with ORDER BY v: RANGE UNBOUNDED PRECEDING..CURRENT ROW includes peers: 10, 50, 50, 50, 5
+    assert_eq!(run(win(WinFunc::Agg(AggFunc::Sum), vec![v()], vec![g()], vec![asc(v())], None)), vec![I(10), I(50), I(50), I(50), I(5)]);
+    // no ORDER BY: whole partition
+    assert_eq!(run(win(WinFunc::Agg(AggFunc::Sum), vec![v()], vec![g()], vec![], None)), vec![I(50), I(50), I(50), I(50), I(5)]);
+    // ROWS BETWEEN 1 PRECEDING AND 1 FOLLOWING by id: 30, 50, 40, 20, 5
+    assert_eq!(run(win(WinFunc::Agg(AggFunc::Sum), vec![v()], vec![g()], vec![asc(id())], fr(FrameUnits::Rows, Preceding(I(1)), Following(I(1))))), vec![I(30), I(50), I(40), I(20), I(5)]);
+    // ROWS BETWEEN 2 FOLLOWING AND 3 FOLLOWING: count(*) 2, 1, 0, 0, 0 ; sum NULL on empty frame
+    assert_eq!(run(win(WinFunc::Agg(AggFunc::Count), vec![], vec![g()], vec![asc(id())], fr(FrameUnits::Rows, Following(I(2)), Following(I(3))))), vec![I(2), I(1), I(0), I(0), I(0)]);
+    assert_eq!(run(win(WinFunc::Agg(AggFunc::Sum), vec![v()], vec![g()], vec![asc(id())], fr(FrameUnits::Rows, Following(I(2)), Following(I(3))))), vec![I(20), N, N, N, N]);
+    // RANGE BETWEEN 10 PRECEDING AND CURRENT ROW on v: v=10 → 10; v=20 → 10+20+20; NULL key → its peer group (sum NULL)
+    assert_eq!(run(win(WinFunc::Agg(AggFunc::Sum), vec![v()], vec![g()], vec![asc(v())], fr(FrameUnits::Range, Preceding(I(10)), CurrentRow))), vec![I(10), I(50), I(50), N, I(5)]);
+    // RANGE on a DESC key: 5 PRECEDING = larger values; count(*) per row: v=20 → 2 (both 20s), v=10 → 1, NULL → 1
+    let desc_v = vec![OrderItem { expr: v(), desc: true, nulls_first: None }];
+    assert_eq!(run(win(WinFunc::Agg(AggFunc::Count), vec![], vec![g()], desc_v, fr(FrameUnits::Range, Preceding(I(5)), CurrentRow))), vec![I(1), I(2), I(2), I(1), I(1)]);
+    // GROUPS BETWEEN 1 PRECEDING AND CURRENT ROW on v: groups {10} {20,20} {NULL}: counts 1, 3, 3, 3(=2+1), 1
+    assert_eq!(run(win(WinFunc::Agg(AggFunc::Count), vec![], vec![g()], vec![asc(v())], fr(FrameUnits::Groups, Preceding(I(1)), CurrentRow))), vec![I(1), I(3), I(3), I(3), I(1)]);
+    // lag / lead with default
+    assert_eq!(run(win(WinFunc::Lag, vec![v()], vec![g()], vec![asc(id())], None)), vec![N, I(10), I(20), I(20), N]);
+    assert_eq!(run(win(WinFunc::Lead, vec![v(), Expr::int(2), Expr::int(-1)], vec![g()], vec![asc(id())], None)), vec![I(20), N, I(-1), I(-1), I(-1)]);
+    // first/last/nth over ROWS UNBOUNDED PRECEDING..CURRENT ROW
+    let upc = || fr(FrameUnits::Rows, UnboundedPreceding, CurrentRow);
+    assert_eq!(run(win(WinFunc::FirstValue, vec![v()], vec![g()], vec![asc(id())], upc())), vec![I(10), I(10), I(10), I(10), I(5)]);
+    assert_eq!(run(win(WinFunc::LastValue, vec![v()], vec![g()], vec![asc(id())], upc())), vec![I(10), I(20), I(20), N, I(5)]);
+    assert_eq!(run(win(WinFunc::NthValue, vec![v(), Expr::int(2)], vec![g()], vec![asc(id())], upc())), vec![N, I(20), I(20), I(20), N]);
+    // ntile(3) over 4 rows: 1,1,2,3 ; over 1 row: 1
+    assert_eq!(run(win(WinFunc::Ntile, vec![Expr::int(3)], vec![g()], vec![asc(id())], None)), vec![I(1), I(1), I(2), I(3), I(1)]);
+    // row_number over tied, distinguishable rows is not deterministic
+    let q = Query::simple(sel(vec![(id(), "k0"), (win(WinFunc::RowNumber, vec![], vec![], vec![asc(v())], None), "k1")], Some(tab("w", "r")), None));
+    assert!(matches!(eval(&q, &db), Err(RefError::Nondeterministic(_))));
+}
+
+#[test]
+fn recursive_ctes() {
+    // counter 1..5
+    let anchor = sel(vec![(Expr::int(1), "k1")], None, None);
+    let n = Expr::col("c", "n");
+    let step = sel(vec![(Expr::bin(BinOp::Add, n.clone(), Expr::int(1)), "k2")], Some(tab("cnt", "c")), Some(Expr::bin(BinOp::Lt, n, Expr::int(5))));
+    let body = SetExpr::SetOp { op: SetOp::Union, all: true, left: Box::new(SetExpr::Select(Box::new(anchor))), right: Box::new(SetExpr::Select(Box::new(step))) };
+    let cte = Cte { name: "cnt".into(), cols: vec!["n".into()], recursive: true, q: Box::new(Query { with: vec![], body, order_by: vec![], limit: None, offset: None }) };
+    let mut q = Query::simple(sel(vec![(Expr::col("x", "n"), "k0")], Some(tab("cnt", "x")), None));
+    q.with = vec![cte];
+    assert_eq!(rows_of(&q, &Db::default()), vec![vec![I(1)], vec![I(2)], vec![I(3)], vec![I(4)], vec![I(5)]]);
+    assert!(to_sql(&q).starts_with("WITH RECURSIVE cnt(n) AS ("));
+    // reachability with a cycle terminates under UNION: edges 1→2, 2→3, 3→1, 4→5; from 1: {1,2,3}
+    let db = Db { tables: vec![t("e", &[("a", Ty::Int), ("b", Ty::Int)], vec![vec![I(1), I(2)], vec![I(2), I(3)], vec![I(3), I(1)], vec![I(4), I(5)]])] };
+    let anchor = sel(vec![(Expr::int(1), "k1")], None, None);
+    let from = TableRef::Join { kind: JoinKind::Inner, left: Box::new(tab("e", "g")), right: Box::new(tab("reach", "c")), on: Some(Expr::eq(Expr::col("g", "a"), Expr::col("c", "x"))) };
+    let step = sel(vec![(Expr::col("g", "b"), "k2")], Some(from), None);
+    let body = SetExpr::SetOp { op: SetOp::Union, all: false, left: Box::new(SetExpr::Select(Box::new(anchor))), right: Box::new(SetExpr::Select(Box::new(step))) };
+    let cte = Cte { name: "reach".into(), cols: vec!["x".into()], recursive: true, q: Box::new(Query { with: vec![], body, order_by: vec![], limit: None, offset: None }) };
+    let mut q = Query::simple(sel(vec![(Expr::col("x", "x"), "k0")], Some(tab("reach", "x")), None));
+    q.with = vec![cte];
+    assert_eq!(rows_of(&q, &db), vec![vec![I(1)], vec![I(2)], vec![I(3)]]);
+}
+
+#[test]
+fn printer_smoke() {
+    let q = Query {
+        with: vec![],
+        body: SetExpr::Select(Box::new(sel(vec![(Expr::col("r0", "a"), "k0")], Some(tab("t0", "r0")), Some(Expr::bin(BinOp::Gt, Expr::col("r0", "a"), Expr::int(-1)))))),
+        order_by: vec![OrderItem { expr: Expr::out("k0"), desc: true, nulls_first: Some(false) }],
+        limit: Some(3),
+        offset: Some(1),
+    };
+    assert_eq!(to_sql(&q), "SELECT r0.a AS k0 FROM t0 AS r0 WHERE (r0.a > (-1)) ORDER BY k0 DESC NULLS LAST LIMIT 3 OFFSET 1");
+    assert_eq!(Value::Float(2.0).to_sql_literal(), "2.0");
+    assert_eq!(Value::Float(-0.5).to_sql_literal(), "(-0.5)");
+    assert_eq!(Value::Str("a'b".into()).to_sql_literal(), "'a''b'");
+}
+
+#[test]
+fn json_roundtrip_and_generator_health() {
+    use proptest::strategy::{Strategy, ValueTree};
+    use proptest::test_runner::{Config, RngSeed, TestRunner};
+    let cfg = GenConfig::standard(3, 8, 2);
+    let strat = case_strategy(&cfg);
+    let mut runner = TestRunner::new(Config { rng_seed: RngSeed::Fixed(7), failure_persistence: None, ..Config::default() });
+    let (mut ok, mut harness_bugs, mut nondet, mut other) = (0, 0, 0, 0);
+    for _ in 0..400 {
+        let case = strat.new_tree(&mut runner).unwrap().current();
+        let text = serde_json::to_string(&case).unwrap();
+        let back: SqlCase = serde_json::from_str(&text).unwrap();
+        assert_eq!(back.query, case.query);
+        assert_eq!(back.tables, case.tables);
+        let sql = to_sql(&case.query);
+        assert!(!sql.is_empty());
+        match eval(&case.query, &case.db()) {
+            Ok(_) => ok += 1,
+            Err(e) => match classify(&e) {
+                RefErrorClass::HarnessBug => {
+                    harness_bugs += 1;
+                    eprintln!("harness bug {e}: {sql}");
+                }
+                _ => {
+                    if matches!(e, RefError::Nondeterministic(_)) {
+                        nondet += 1;
+                        eprintln!("nondeterministic: {sql}");
+                    } else {
+                        other += 1
+                    }
+                }
+            },
+        }
+        let _ = features(&case.query);
+    }
+    // tape consumption
+    let mut used = vec![];
+    for seed in 0..300u32 {
+        let tape: Vec<u8> = (0..2000u32).map(|i| (crate::engine::splitmix64(((seed as u64) << 32) | i as u64) >> 24) as u8).collect();
+        used.push(r#gen::build_query_stats(&cfg, tape).1);
+    }
+    used.sort();
+    eprintln!("tape cells consumed: median {} p90 {} max {}", used[150], used[270], used[299]);
+    eprintln!("generator health: ok={ok} nondeterministic={nondet} other-ref-errors={other} harness-bugs={harness_bugs}");
+    assert_eq!(harness_bugs, 0);
+    assert!(ok >= 300, "too few evaluable cases: {ok}");
+    assert!(nondet <= 8, "the generator should produce deterministic queries by construction: {nondet}");
+}
